@@ -63,6 +63,9 @@ pub enum LinkFault {
     /// of this step, the other (authorised for no step) signs the evidence, filed under its - that is also the
     /// functionary's - prefix
     ByCollidingTableKey(u8),
+    /// the link records one artifact under two spellings (`p` and `./p`, different digests); after signing the digest
+    /// recorded under `./p` is changed
+    TamperSecondSpelling,
 }
 
 #[derive(Clone, Debug, Serialize, Deserialize)]
@@ -125,6 +128,16 @@ pub fn apply_faults(spec: &Spec) -> (World, Option<serde_json::Value>) {
                     *tamper = Some(e.clone());
                 }
             }
+            LinkFault::TamperSecondSpelling => {
+                if let Body::Link { link, tamper, .. } = &mut w.links[i].body {
+                    let k = link.products.keys().next().cloned().unwrap_or_else(|| "zz".to_string());
+                    let d0: Digests = [("sha256".to_string(), DIGEST_POOL_256[0].to_string())].into();
+                    let d1: Digests = [("sha256".to_string(), DIGEST_POOL_256[1].to_string())].into();
+                    link.products.entry(k.clone()).or_insert(d0);
+                    link.products.insert(format!("./{}", k), d1);
+                    *tamper = Some(TreeEdit { site: u16::MAX - 1, kind: 10, arg: String::new() });
+                }
+            }
             LinkFault::ByUnauthorizedFunctionary(n) => {
                 // in a large key table prefer an unauthorised key whose rank (by key id) is congruent modulo 64 to the
                 // rank of an authorised one - where position-indexed tables of 64 would alias
@@ -185,7 +198,7 @@ pub fn apply_faults(spec: &Spec) -> (World, Option<serde_json::Value>) {
             LinkFault::Mislabelled(n) => {
                 let o = pick(&others, *n).unwrap_or_else(|| stranger(*n));
                 if let Body::Link { sigs, .. } = &mut w.links[i].body {
-                    *sigs = vec![SigEntry { signer: o, label: Some(this_key.clone()), corrupt: None }];
+                    *sigs = vec![SigEntry { signer: o, label: Some(this_key.clone()), corrupt: None, label_upper: false }];
                 }
             }
             LinkFault::Corrupt(c) => {
@@ -258,7 +271,7 @@ pub fn apply_faults(spec: &Spec) -> (World, Option<serde_json::Value>) {
                     b = stranger(n.wrapping_add(61));
                 }
                 if let Body::Link { sigs, .. } = &mut w.links[i].body {
-                    *sigs = vec![SigEntry { signer: b.clone(), label: Some(this_key.clone()), corrupt: None }];
+                    *sigs = vec![SigEntry { signer: b.clone(), label: Some(this_key.clone()), corrupt: None, label_upper: false }];
                 }
                 alias = Some(serde_json::json!({"under": key_id_str(&this_key), "key": crate::model::keyid::key_wire(&b).1, "lie": n % 2 == 0}));
             }
@@ -330,6 +343,7 @@ fn fault_strategy() -> BoxedStrategy<LinkFault> {
         1 => Just(LinkFault::SymlinkUnderOwnPrefix),
         2 => Just(LinkFault::ByOwnerKeyMissingFromTable),
         2 => any::<u8>().prop_map(LinkFault::ByCollidingTableKey),
+        2 => Just(LinkFault::TamperSecondSpelling),
     ]
     .boxed()
 }
@@ -342,7 +356,7 @@ impl Property for C02 {
     fn rule() -> String {
         "Generated: valid worlds with 1-4 steps, thresholds 0-3, functionary pool of 2-5 keys, every assignment of keys to step.pubkeys, then \
          1-3 faults on chosen (step, link) files: removed; signed by another functionary but filed under this key's prefix; tampered after \
-         signing; replaced by a valid link of a functionary authorised only for other steps; of a key authorised in the step but absent \
+         signing (also: one artifact recorded under the spellings p and ./p, the digest under ./p changed afterwards); replaced by a valid link of a functionary authorised only for other steps; of a key authorised in the step but absent \
          from the key table; of a stranger; signed by a key of the key table that is authorised for no step while a *different* key whose id starts with the same eight characters (a pair found by search) is a functionary of the step; filed under a name whose id field is dots plus only the first 0-7 characters of the signer's id; entered as a symbolic link named after another key's prefix that points to the properly named document elsewhere; replaced by a link attributed to the same key material declared (in key table and pubkeys) with an unimplemented signature scheme; multiply signed; signature by another key labelled with this key's id; corrupted signature; \
          garbage; aliased key-table entry (table files key B under id(A), B signs labelled id(A)); evidence replaced by a valid \
          sub-layout of a functionary who is not authorised for the step / missing from the key table. Enumerated: 2 steps x 2 keys, every \
